@@ -225,6 +225,18 @@ func (e *c16LoopEnv) varWrites(body *ast.BlockStmt, v types.Object) c16VarWrites
 						readsV = true
 					}
 				}
+				if len(x.Lhs) == 1 && len(x.Rhs) == 1 && x.Tok == token.ASSIGN {
+					// v = v[:0]: the emptying idiom re-initialises a slice although it mentions v
+					if sl, ok := ast.Unparen(x.Rhs[0]).(*ast.SliceExpr); ok && isV(sl.X) && sl.High != nil && !sl.Slice3 {
+						lowZero := sl.Low == nil
+						if tv, ok := info.Types[sl.Low]; sl.Low != nil && ok && tv.Value != nil && constant.Sign(tv.Value) == 0 {
+							lowZero = true
+						}
+						if tv, ok := info.Types[sl.High]; ok && tv.Value != nil && constant.Sign(tv.Value) == 0 && lowZero {
+							readsV = false
+						}
+					}
+				}
 				if !readsV {
 					w.kills[x] = true
 				} else {
